@@ -10,6 +10,18 @@ Streams
             elffile.py + gnuversions.py run on the same file (correspondence)
   versym  : version-symbol tables of any length (padded entry sizes, sizes with a remainder) next to a dynamic
             symbol table (padded entries) — same three-way comparison
+  file    : the same abstract contents inside an abstract ELF image (C01's ElfDesc: sections in random order, random
+            gaps, optional fillers, a second section bearing the version section's name before or after it, name table
+            shared with .dynstr or separate, padded header-table entry sizes, 0..2 program headers) → bytes by the Lean
+            Spec assemblers (section body AND image) → real `ELFFile(...).get_section(i)` and
+            `.get_section_by_name(name)`; the property is checked wherever the Spec's well-formedness predicate of the
+            DESCRIPTION holds (needFileWf / defFileWf / versymFileWf ∧ imageFits: the hypotheses of the
+            `*_assembled_exact` theorems; no layout predicate is evaluated on the bytes), correspondence always
+  trunc   : chains that leave the file: the declared count exceeds the chain and the last `next` displacement leads
+            beyond the end (far beyond, or so that the next record straddles the end of the file by 1..size bytes), and
+            entries whose auxiliary count exceeds their auxiliary chain in the same two ways; expectation from the
+            `*_truncated` theorems (ELFParseError for the enumeration and has_indexes; get_version: the carrier if it is
+            chained, ELFParseError otherwise), checked where the driver finds their hypotheses on the file
   raw     : damaged images (truncation, byte substitution inside the version / string / symbol sections, wrong
             sh_info, zero counts, wrong link targets, zero entry sizes) → model vs real, errors included
 """
@@ -24,11 +36,17 @@ RULE = ('ver: kind∈{need,def} × cls∈{32,64} × LSB/MSB × 7 machines; 0..8 
         'of records (the prefix is expected), integers from boundary pools, indexes with and without bit 15, name offsets at '
         'string starts and inside strings, names crossing the 64-byte chunk of the string reader, multi-byte UTF-8. '
         'versym: 0..64 (thorough ..400) rows, entsize 2/4/6, symbol entsize natural/+8, sh_size with remainder, SHT_DYNSYM/SHT_SYMTAB. '
+        'file: ver/versym contents as above × ElfDesc container (section order shuffled, gaps {0,1,3,8,17}, sh/ph entry sizes +0/8, '
+        'duplicate-name section, shared/separate name table, SHF_COMPRESSED flag on the version section, tail padding), by index and by name. '
+        'trunc: ver contents with ≥1 entry, no repetition; last vn_next/vd_next (or last vna_next/vda_next with cnt raised by 1/2/4) ∈ '
+        '{0x10000, 0x7fffffff, 0x80000000, 0xffffffff} or chosen so that the next record starts 0/1/size÷2/size−1 bytes before the end of the file. '
         'raw: one damage per valid image. Non-trivial = distinct (file image, section, queries); every ver case walks ≥ 0 entries, '
         'trivial (0-entry) cases are counted apart.')
 ASSUMPTIONS = ['io.BytesIO read/seek/tell semantics', 'names are compared after bytes.decode("utf-8", "replace") (applied to the '
                'model/spec bytes exactly as the library applies it)',
-               'the ELF container (header tables, section dispatch) is covered by C01; here it is exercised through the model of elffile.py']
+               'the ELF container (header tables, section dispatch) is covered by C01; here it is exercised through the model of elffile.py '
+               '(ver/versym/trunc/raw streams: Python-built containers, the layout predicate evaluated on the file) and composed with '
+               'C01\'s theorems in the whole-file theorems (file stream: Spec-assembled images, only the description\'s well-formedness evaluated)']
 
 NAMES = [b'GLIBC_2.2.5', b'GLIBC_2.17', b'libc.so.6', b'libm.so.6', b'VERS_1.0', b'', b'x', 'vërsïon_ü'.encode('utf-8'),
          b'a' * 62, b'b' * 63, b'c' * 64, b'd' * 65, b'e' * 130, b'LIBFOO_PRIVATE', b'ld-linux-x86-64.so.2']
@@ -79,17 +97,16 @@ def versions_obs(s, mode):
     return [[canon(v.entry), nm(v.name), a] for (v, _), a in zip(pairs, auxs)]
 
 
-def observe(data, sec, queries):
-    """Everything the property observes of section `sec`, through the public API."""
-    from elftools.elf.elffile import ELFFile
-    elf = ELFFile(io.BytesIO(data))
-    s = elf.get_section(sec)
+def observe_section(fresh, queries, mode=0):
+    """Everything the property observes of the section object `fresh()` returns (a new object per call)."""
+    s = fresh()
+    if s is None:
+        return {'kind': None}
     kind = type(s).__name__
     out = {'kind': kind}
     if kind in ('GNUVerNeedSection', 'GNUVerDefSection'):
         out['num'] = run_impl(lambda: s.num_versions())
         def versions():
-            mode = _mode(data)
             if mode == 0:
                 return versions_obs(s, 0)
             try:
@@ -97,11 +114,11 @@ def observe(data, sec, queries):
             except Exception:
                 # on a damaged table the in-order walk defines WHICH error is raised; a deferred walk may meet another
                 # one first.  Report the in-order error of a fresh object; if that walk succeeds, the deferred failure stands.
-                versions_obs(ELFFile(io.BytesIO(data)).get_section(sec), 0)
+                versions_obs(fresh(), 0)
                 raise
         out['versions'] = run_impl(versions)
         if kind == 'GNUVerNeedSection':
-            out['has_indexes'] = run_impl(lambda: elf.get_section(sec).has_indexes())
+            out['has_indexes'] = run_impl(lambda: fresh().has_indexes())
 
             def get(q):
                 r = s.get_version(q)
@@ -120,6 +137,20 @@ def observe(data, sec, queries):
             return [canon(x.entry), nm(x.name)]
         out['get'] = [run_impl(lambda q=q: gets(q)) for q in queries]
     return out
+
+
+def observe(data, sec, queries):
+    """Section `sec`, through the public API: ELFFile(BytesIO(data)).get_section(sec)."""
+    from elftools.elf.elffile import ELFFile
+    elf = ELFFile(io.BytesIO(data))
+    return observe_section(lambda: elf.get_section(sec), queries, _mode(data))
+
+
+def observe_by_name(data, name, queries):
+    """ELFFile(BytesIO(data)).get_section_by_name(name) on a fresh file object."""
+    from elftools.elf.elffile import ELFFile
+    elf = ELFFile(io.BytesIO(data))
+    return observe_section(lambda: elf.get_section_by_name(name.decode('utf-8')), queries, _mode(data))
 
 
 # --------------------------------------------------------------------------- generators
@@ -200,6 +231,12 @@ def gen_ver(rng, thorough=False):
         else:
             e.update(flags=rnd_uint(rng, 16), ndx=rnd_idx(rng), hash=rnd_uint(rng, 32))
         entries.append(e)
+    if n and rng.random() < 0.1:
+        # cnt larger than the number of distinct auxiliaries: the last one repeated through a zero displacement
+        e = entries[rng.randrange(n)]
+        e['auxs'][-1]['next'] = 0
+        e['auxs'] = e['auxs'] + [dict(e['auxs'][-1]) for _ in range(rng.choice([1, 2, 4]))]
+        e['rep_aux'] = True
     if n and rng.random() < 0.12:
         # the last record repeated through a zero displacement
         entries[-1]['next'] = 0
@@ -311,9 +348,11 @@ def judge(ctx, stream, case, wf, expect, model, impl):
                 if got.get(key) != exp[key]:
                     bad = (key, exp[key], got.get(key))
                     break
-            if bad is None:
+            if bad is None and 'get' in exp:
                 for i, g in enumerate(got.get('get', [])):
-                    if 'carriers' in exp:
+                    if isinstance(exp['get'][i], dict) and 'err' in exp['get'][i]:
+                        ok = g == exp['get'][i]       # truncated chains: no carrier is chained, the walk must raise
+                    elif 'carriers' in exp:
                         cands = exp['carriers'][i]
                         ok = ('ok' in g) and ((g['ok'] is None and not cands) or (g['ok'] is not None and g['ok'] in cands))
                     else:
@@ -382,6 +421,8 @@ def run_ver(ctx):
                 ctx.out.count('ver:prefix-only')
             if any(e['next'] == 0 for e in a['entries'][:-1]):
                 ctx.out.count('ver:repeated-record')
+            if any(e.get('rep_aux') for e in a['entries']):
+                ctx.out.count('ver:repeated-aux')
         run_checks(ctx, 'ver', items)
 
 
@@ -398,6 +439,261 @@ def run_versym(ctx):
             a = c['ast']
             ctx.out.count('versym:%d:%s:entsize=%d' % (a['cls'], 'le' if a['le'] else 'be', a['entsize']))
         run_checks(ctx, 'versym', items)
+
+
+# --------------------------------------------------------------------------- whole abstract images (C01's ElfDesc)
+CLASS_MACHINES = {
+    'EM_SPARC': ['EM_SPARC', 'EM_386', 'EM_68K', 'EM_S390', 'EM_SH', 'EM_CRIS', 'EM_M32R', 'EM_MN10300'],
+    'EM_MIPS': ['EM_MIPS'], 'EM_MIPS_RS3_LE': ['EM_MIPS_RS3_LE'], 'EM_ARM': ['EM_ARM'], 'EM_X86_64': ['EM_X86_64'],
+    'EM_AARCH64': ['EM_AARCH64'], 'EM_RISCV': ['EM_RISCV'],
+}
+
+
+def mclass_of(e_machine):
+    from elftools.elf.enums import ENUM_E_MACHINE
+    names = [k for k, v in ENUM_E_MACHINE.items() if v == e_machine and k != '_default_']
+    for cl, ms in CLASS_MACHINES.items():
+        if any(n in ms for n in names):
+            return cl
+    return 'default'
+
+
+def R(**kw):
+    return {'r': [[k, v] for k, v in kw.items()]}
+
+
+def build_desc(rng, c, content, symtab):
+    """An abstract ELF image (the JSON of Spec.ElfDesc) holding the assembled contents.  Returns the `file` request."""
+    ast = c['ast']
+    cls, le, kind = ast['cls'], ast['le'], ast['kind']
+    shsz, phsz, ehsize = (40, 32, 52) if cls == 32 else (64, 56, 64)
+
+    def X():
+        return rnd_uint(rng, cls)
+    tab = bytes.fromhex(c['strtab'])
+    share = rng.random() < 0.2                 # .dynstr is also the section-name table
+    null = dict(name=b'', type=0, flags=0, link=None, info=0, entsize=0, body=None)
+    dynstr = dict(name=b'.dynstr', type=3, flags=2, link=None, info=0, entsize=0, body=tab)
+    items = [dynstr]
+    slack = more = b''
+    if kind == 'versym':
+        more = rnd_bytes(rng, rng.choice([0, 0, 1, 3]) * ast['symentsize'])
+        slack = rnd_bytes(rng, c['rem'])
+        dynsym = dict(name=b'.dynsym', type=c['symtype'], flags=2, link=dynstr, info=1, entsize=ast['symentsize'],
+                      body=symtab + more)
+        ver = dict(name=b'.gnu.version', type=0x6fffffff, flags=2, link=dynsym, info=0, entsize=ast['entsize'],
+                   body=content + slack)
+        items += [dynsym, ver]
+    else:
+        need = kind == 'need'
+        ver = dict(name=b'.gnu.version_r' if need else b'.gnu.version_d', type=0x6ffffffe if need else 0x6ffffffd,
+                   flags=rng.choice([2, 2, 0, 0x22]), link=dynstr, info=c['sh_info'], entsize=rng.choice([0, 0, 16]),
+                   body=content)
+        items.append(ver)
+    if len(ver['body']) >= 24 and rng.random() < 0.06:
+        ver['flags'] |= 0x800                   # SHF_COMPRESSED: the version classes read the raw bytes regardless
+    if c['filler']:
+        items.append(dict(name=b'.filler', type=1, flags=0, link=None, info=0, entsize=0, body=bytes(range(1, c['filler'] + 1))))
+    dup = rng.random() < 0.2
+    if dup:                                     # another section bearing the version section's name
+        items.append(dict(name=ver['name'], type=rng.choice([1, 7]), flags=0, link=None, info=0, entsize=0, body=b'\x05\x06\x07'))
+    if not share:
+        items.append(dict(name=b'.shstrtab', type=3, flags=0, link=None, info=0, entsize=0, body=b''))
+    rng.shuffle(items)
+    secs = [null] + items
+    # the name table
+    names = bytearray(b'\0')
+    noff = {b'': 0}
+    for t in secs:
+        if t['name'] not in noff:
+            noff[t['name']] = len(names)
+            names += t['name'] + b'\0'
+    if share:
+        base = len(dynstr['body'])
+        dynstr['body'] = dynstr['body'] + bytes(names)
+        noff = {k: v + base for k, v in noff.items()}
+        shstr = dynstr
+    else:
+        shstr = [t for t in secs if t['name'] == b'.shstrtab'][0]
+        shstr['body'] = bytes(names)
+    index = {id(t): i for i, t in enumerate(secs)}
+    nseg = rng.choice([0, 0, 1, 2])
+    shentsize = shsz + rng.choice([0, 0, 8])
+    phentsize = phsz + rng.choice([0, 0, 8])
+    regions = ['sh', 'ph'] + [('body', i) for i, t in enumerate(secs) if t['body']]
+    rng.shuffle(regions)
+    pos = ehsize + rng.choice([0, 0, 4])
+    shoff = phoff = 0
+    for r in regions:
+        pos += rng.choice([0, 0, 0, 1, 3, 8, 17])
+        if r == 'sh':
+            shoff = pos
+            pos += shentsize * len(secs)
+        elif r == 'ph':
+            phoff = pos
+            pos += phentsize * nseg
+        else:
+            secs[r[1]]['offset'] = pos
+            pos += len(secs[r[1]]['body'])
+    for t in secs:
+        t.setdefault('offset', 0 if t is null else rng.choice([pos, 0, ehsize, pos + 5]))
+    segs = []
+    for _ in range(nseg):
+        f = dict(p_type=rng.choice([1, 1, 4, 6, 0x6474e551]), p_offset=X(), p_vaddr=X(), p_paddr=X(), p_filesz=X(), p_memsz=X(),
+                 p_flags=rnd_uint(rng, 32), p_align=X())
+        order = (['p_type', 'p_offset', 'p_vaddr', 'p_paddr', 'p_filesz', 'p_memsz', 'p_flags', 'p_align'] if cls == 32 else
+                 ['p_type', 'p_flags', 'p_offset', 'p_vaddr', 'p_paddr', 'p_filesz', 'p_memsz', 'p_align'])
+        segs.append(R(**{k: f[k] for k in order}))
+    desc = {
+        'cls': cls, 'le': le, 'mclass': mclass_of(c['machine']), 'solaris': False, 'core': False,
+        'ehdr': R(EI_VERSION=1, EI_OSABI=0, EI_ABIVERSION=0, e_type=c['e_type'], e_machine=c['machine'], e_version=1,
+                  e_entry=X(), e_flags=rnd_uint(rng, 32), e_ehsize=ehsize),
+        'shoff': shoff, 'phoff': phoff, 'shentsize': shentsize, 'phentsize': phentsize,
+        'sections': [{'name': hx(t['name']), 'nameOff': noff[t['name']],
+                      'hdr': R(sh_type=t['type'], sh_flags=t['flags'], sh_addr=0 if t is null else X(), sh_offset=t['offset'],
+                               sh_size=len(t['body'] or b''), sh_link=index[id(t['link'])] if t['link'] is not None else 0,
+                               sh_info=t['info'], sh_addralign=0 if t is null else rng.choice([1, 2, 4, 8]),
+                               sh_entsize=t['entsize']),
+                      'body': hx(t['body']) if t['body'] is not None else None} for t in secs],
+        'segments': segs, 'shstrndx': index[id(shstr)],
+    }
+    vi = index[id(ver)]
+    qnames = [ver['name'], ver['name'] + b'x', rng.choice([b'.dynstr', b'.filler', b'', b'.gnu.version'])]
+    rq = {'p': 'C15', 'k': 'file', 'desc': desc, 'ast': ast, 'sec': vi, 'tail': rng.choice([0, 0, 5]),
+          'queries': c['queries'], 'names': [hx(n) for n in qnames], 'slack': hx(slack), 'moreSyms': hx(more)}
+    if kind != 'versym':
+        rq['declared'] = c['sh_info']
+    return rq, dict(dup=dup, share=share, compressed=bool(ver['flags'] & 0x800))
+
+
+def judge_file(out, stream, rq, r):
+    """All verdicts of one `file` case (by index, then by every queried name), on a reply of the driver."""
+    data = bytes.fromhex(r['bytes'])
+    sec, queries = rq['sec'], rq['queries']
+
+    class _C:
+        pass
+    _C.out = out
+    impl = run_impl(lambda: observe(data, sec, queries))
+    judge(_C, stream, {'req': rq, 'via': 'index'}, r['wf'], r['expect'], r['model'], impl)
+    for k, h in enumerate(rq['names']):
+        name = bytes.fromhex(h)
+        got = run_impl(lambda: observe_by_name(data, name, queries))
+        idx = r['indexOfName'][k]
+        case = {'req': rq, 'via': 'name', 'name': h}
+        wfn = r['wf'] and r['observable']          # the hypotheses of the `by_name` theorems
+        if wfn and idx is None:
+            if got != {'ok': {'kind': None}}:
+                out.violation('property', stream, case, what='absent name', expect=None, got=got)
+                continue
+            judge(_C, stream, case, False, None, r['modelByName'][k], got)
+        else:
+            # the name designates the version section: the same expectation as by index; another section: correspondence
+            judge(_C, stream, case, wfn and idx == sec, r['expect'], r['modelByName'][k], got)
+
+
+def run_file(ctx):
+    rng = ctx.rng('file')
+    total = ctx.budget(450, 12000)
+    nwf = 0
+    for start in range(0, total, CHUNK):
+        cases = [(gen_versym(rng, ctx.tier == 'thorough') if rng.random() < 0.3 else gen_ver(rng, ctx.tier == 'thorough'))
+                 for _ in range(min(CHUNK, total - start))]
+        contents = assemble(ctx, cases)
+        reqs, metas = [], []
+        for c, r in zip(cases, contents):
+            rq, meta = build_desc(rng, c, bytes.fromhex(r['content']), bytes.fromhex(r.get('symtab', '')))
+            reqs.append(rq)
+            metas.append(meta)
+        replies = ctx.driver.ask_many(reqs)
+        for c, rq, meta, r in zip(cases, reqs, metas, replies):
+            if 'fatal' in r:
+                raise RuntimeError('driver: %s on %r' % (r['fatal'], str(c)[:300]))
+            a = c['ast']
+            n = len(a.get('entries', a.get('rows', [])))
+            if 'bytes' not in r:
+                ctx.out.count('file:not-encodable')
+                continue
+            ctx.out.case({'hex': r['bytes'], 'sec': rq['sec'], 'q': rq['queries']}, nontrivial=n > 0)
+            ctx.out.count('file:%s:%s' % (a['kind'], 'wf' if r['wf'] else 'not-wf'))
+            nwf += bool(r['wf'])
+            if r['wf'] and not r['observable']:
+                ctx.out.count('file:wf-but-not-observable')
+            for k, v in meta.items():
+                if v:
+                    ctx.out.count('file:%s' % k)
+            for k, idx in enumerate(r['indexOfName']):
+                ctx.out.count('file:by-name:%s' % ('absent' if idx is None else 'version-section' if idx == rq['sec'] else 'other-section'))
+            judge_file(ctx.out, 'file', rq, r)
+    if nwf == 0:
+        raise RuntimeError('file stream: no description satisfied the Spec well-formedness predicate (vacuous run)')
+
+
+# --------------------------------------------------------------------------- chains that leave the file
+FAR = [0x10000, 0x7fffffff, 0x80000000, 0xffffffff]
+
+
+def run_trunc(ctx):
+    rng = ctx.rng('trunc')
+    total = ctx.budget(300, 8000)
+    for start in range(0, total, CHUNK):
+        cases = []
+        while len(cases) < min(CHUNK, total - start):
+            c = gen_ver(rng, ctx.tier == 'thorough')
+            es = c['ast']['entries']
+            if not es or any(e['next'] == 0 for e in es[:-1]) or any(e.get('rep_aux') for e in es):
+                continue
+            c['tmode'] = rng.choice(['entry-far', 'entry-near', 'aux-far', 'aux-near'])
+            if c['tmode'].startswith('entry'):
+                es[-1]['next'] = rng.choice(FAR)
+                c['sh_info'] = len(es) + rng.choice([1, 2, 5])
+            else:
+                es[-1]['auxs'][-1]['next'] = rng.choice(FAR)
+                es[-1]['cnt'] = len(es[-1]['auxs']) + rng.choice([1, 2, 4])
+                c['sh_info'] = len(es) + rng.choice([0, 0, 1])
+            cases.append(c)
+        contents = assemble(ctx, cases)
+        redo = []
+        for c, r in zip(cases, contents):
+            if not c['tmode'].endswith('near'):
+                continue
+            # aim the next record at the last bytes of the file (the layout does not depend on the displacement)
+            data, f, _ = build_ver(c, bytes.fromhex(r['content']))
+            es = c['ast']['entries']
+            need = c['ast']['kind'] == 'need'
+            last = f['off'] + sum(e['next'] for e in es[:-1])
+            if c['tmode'] == 'entry-near':
+                size = 16 if need else 20
+                nxt = len(data) - rng.choice([0, 1, size // 2, size - 1]) - last
+                if 0 <= nxt < 2 ** 32:
+                    es[-1]['next'] = nxt
+                    redo.append(c)
+            else:
+                size = 16 if need else 8
+                last += es[-1]['aux'] + sum(a['next'] for a in es[-1]['auxs'][:-1])
+                nxt = len(data) - rng.choice([0, 1, size // 2, size - 1]) - last
+                if 0 <= nxt < 2 ** 32:
+                    es[-1]['auxs'][-1]['next'] = nxt
+                    redo.append(c)
+        if redo:
+            again = assemble(ctx, redo)
+            byid = {id(c): r for c, r in zip(redo, again)}
+            contents = [byid.get(id(c), r) for c, r in zip(cases, contents)]
+        reqs, items = [], []
+        for c, r in zip(cases, contents):
+            data, f, _ = build_ver(c, bytes.fromhex(r['content']))
+            rq = check_req(c, data, f)
+            rq['mode'] = 'trunc' if c['tmode'].startswith('entry') else 'auxtrunc'
+            reqs.append(rq)
+            items.append((c, data, f))
+        replies = ctx.driver.ask_many(reqs)
+        for (c, data, f), rq, r in zip(items, reqs, replies):
+            if 'fatal' in r:
+                raise RuntimeError('driver: %s on %r' % (r['fatal'], str(c)[:300]))
+            impl = run_impl(lambda: observe(data, f['sec'], c['queries']))
+            ctx.out.case({'hex': rq['hex'], 'sec': f['sec'], 'q': c['queries']})
+            ctx.out.count('trunc:%s:%s' % (c['tmode'], 'wf' if r['wf'] else 'not-wf'))
+            judge(ctx, 'trunc', {'req': rq}, r['wf'], r['expect'], r['model'], impl)
 
 
 # --------------------------------------------------------------------------- damaged images
@@ -497,14 +793,23 @@ def run_raw_chunk(ctx, rng, n):
 def run(ctx):
     run_ver(ctx)
     run_versym(ctx)
+    run_file(ctx)
+    run_trunc(ctx)
     run_raw(ctx)
 
 
 def replay(ctx, payload):
     v = payload['violation']
     rq = v['case']['req']
-    data = bytes.fromhex(rq['hex'])
     r = ctx.driver.ask(rq)
+    if rq['k'] == 'file':
+        class _O:
+            def __init__(self): self.violations = []
+            def violation(self, kind, stream, case, **kw): self.violations.append(dict(kind=kind, via=case.get('via'), **kw))
+        o = _O()
+        judge_file(o, v['stream'], rq, r)
+        return {'stream': v['stream'], 'wf': r['wf'], 'verdict': o.violations, 'fails': bool(o.violations)}
+    data = bytes.fromhex(rq['hex'])
     impl = run_impl(lambda: observe(data, rq['sec'], rq.get('queries', [])))
     res = {'stream': v['stream'], 'impl': impl, 'model': norm(r.get('model'))}
     if rq['k'] == 'check':
